@@ -72,6 +72,15 @@ theorem notePending_fst (s0 : State) (r : State × Out) :
     · exact ⟨r.1.pending, rfl⟩
   · exact ⟨r.1.pending, rfl⟩
 
+theorem notePending_eq (s0 t : State) (o : Out) :
+    ∃ p, notePending s0 (t, o) = ({ t with pending := p }, o) := by
+  unfold notePending
+  split
+  · split
+    · exact ⟨_, rfl⟩
+    · exact ⟨t.pending, rfl⟩
+  · exact ⟨t.pending, rfl⟩
+
 theorem convert_frame {s s2 : State} (h : convert s = some s2) :
     ∃ r mp, s2 = { s with results := r, mapPending := mp } := by
   unfold convert at h
@@ -118,6 +127,11 @@ theorem getRes_frame (fixed : Bool) {s : State} (h : NoRepair s) :
     · exact triv
   · rw [hsp]; exact triv
 
+/-- the state in which the task function has just been left -/
+def finishPre (s : State) : State :=
+  { s with phase := .done, cbOpen := false, pending := none,
+           worker := if s.worker = Worker.alive then Worker.dead else s.worker }
+
 theorem finish_frame (fixed : Bool) {s : State} (hs : s.status ≠ .running) :
     ∃ r mp, (finish fixed s).1 =
       { s with phase := .done, cbOpen := false, pending := none,
@@ -126,9 +140,7 @@ theorem finish_frame (fixed : Bool) {s : State} (hs : s.status ≠ .running) :
   unfold finish
   simp only
   split
-  · have hn : NoRepair { s with phase := .done, cbOpen := false, pending := none,
-        worker := if s.worker = Worker.alive then Worker.dead else s.worker } := fun h => hs h.1
-    obtain ⟨r, mp, h⟩ := getRes_frame fixed hn
+  · obtain ⟨r, mp, h⟩ := getRes_frame fixed (s := (finishPre s)) (fun h => hs h.1)
     exact ⟨r, mp, h⟩
   · exact ⟨s.results, s.mapPending, rfl⟩
 
@@ -142,12 +154,15 @@ def ActiveShape (s : State) : Prop :=
 theorem Inv.activeShape {s : State} (h : Inv s) (ha : s.phase = .active) : ActiveShape s := by
   rcases h.cases with h | h | h | h | h | h | h <;> simp_all [ActiveShape]
 
+theorem Inv.running_of_active {s : State} (h : Inv s) (ha : s.phase = .active) : s.status = .running := by
+  rcases h.cases with h | h | h | h | h | h | h <;> simp_all
+
 theorem inv_finish (fixed : Bool) {s : State} (hf : s.status.isFinal = true) (ha : ActiveShape s) :
     Inv (finish fixed s).1 := by
   have hs : s.status ≠ .running := by intro h; simp [h, St.isFinal] at hf
   obtain ⟨r, mp, h⟩ := finish_frame fixed hs
   rw [h]
-  obtain ⟨h1, h2 | h2, h3⟩ := ha <;> simp [Inv, shapeOk, h1, h2, h3, hf]
+  obtain ⟨h1, h2 | h2, h3⟩ := ha <;> simp [Inv, shapeOk, h2, h3, hf]
 
 theorem inv_execEntry (cfg : Cfg) (s : State) (c : Call) (async : Bool) (h : Inv s)
     (hen : callerEnabled s = true) : Inv (execEntry cfg s c async).1 := by
@@ -227,9 +242,13 @@ theorem inv_step (fixed : Bool) (cfg : Cfg) (s : State) (e : Ev) (h : Inv s) :
     simp only [step]
     split
     · next hp =>
+      obtain ⟨h1, h2, h3⟩ := h.activeShape hp
+      have hst : s.status = .running := h.running_of_active hp
       unfold taskProgress
-      rcases h.cases with h | h | h | h | h | h | h <;> simp_all <;>
-        (split <;> [skip; split] <;> simp_all [Inv, shapeOk])
+      simp only
+      split
+      · rcases h2 with h2 | h2 <;> simp [Inv, shapeOk, h1, h2, h3, hst]
+      · split <;> rcases h2 with h2 | h2 <;> simp [Inv, shapeOk, h1, h2, h3, hst]
     · exact h
   | tReturn r =>
     simp only [step]
@@ -265,5 +284,1030 @@ theorem inv_after (fixed : Bool) (cfg : Cfg) (w : List Ev) : Inv (after fixed cf
 theorem inv_exec' (fixed : Bool) (cfg : Cfg) {s : State} (h : Inv s) (w : List Ev) :
     Inv (exec (step fixed cfg) s w) :=
   inv_exec (step fixed cfg) Inv (fun s e h => inv_step fixed cfg s e h) _ h w
+
+/-! ### exact behaviour of the read actions in a reachable state -/
+
+theorem statusProp_cases (fixed : Bool) {s : State} (h : NoRepair s) :
+    statusProp fixed s = .ok s ∨
+      (fixed = false ∧ s.status = .running ∧ s.worker = .none ∧ statusProp fixed s = .error .attribute) := by
+  unfold statusProp
+  split
+  · next hs =>
+    cases hw : s.worker
+    · cases fixed <;> simp [hs]
+    · simp
+    · exact absurd ⟨hs, hw⟩ h
+  · exact .inl rfl
+
+theorem actStatus_cases (fixed : Bool) {s : State} (h : NoRepair s) :
+    actStatus fixed s = (s, .status s.status s.msg s.progress) ∨
+      (fixed = false ∧ s.status = .running ∧ s.worker = .none ∧ actStatus fixed s = (s, .exc .attribute)) := by
+  unfold actStatus
+  rcases statusProp_cases fixed h with hsp | ⟨a, b, c, hsp⟩
+  · rw [hsp]; exact .inl rfl
+  · rw [hsp]; exact .inr ⟨a, b, c, rfl⟩
+
+theorem convert_cases {s s2 : State} (h : convert s = some s2) :
+    (s.mapPending = false ∧ s2 = s) ∨
+      (s.mapPending = true ∧ ∃ r, convertRet s.mapping s.results = some r ∧
+        s2 = { s with results := r, mapPending := false }) := by
+  unfold convert at h
+  split at h
+  · next hm =>
+    split at h
+    · next r hr => cases h; exact .inr ⟨hm, r, hr, rfl⟩
+    · cases h
+  · next hm => cases h; exact .inl ⟨by simpa using hm, rfl⟩
+
+theorem getRes_cases (fixed : Bool) {s : State} (h : NoRepair s) :
+    (fixed = false ∧ s.status = .running ∧ s.worker = .none ∧ getRes fixed s = (s, .err .attribute)) ∨
+    (s.status.isFinal = false ∧ getRes fixed s = (s, .err .stillRunning)) ∨
+    (s.status.isFinal = true ∧ convert s = none ∧
+      getRes fixed s = (s, .err (if s.status.failed then .failed else .notAvailable))) ∨
+    (s.status.isFinal = true ∧ ∃ s2, convert s = some s2 ∧ getRes fixed s = (s2, .val s2.results)) := by
+  unfold getRes
+  rcases statusProp_cases fixed h with hsp | ⟨a, b, c, hsp⟩
+  · rw [hsp]; simp only
+    cases hf : s.status.isFinal
+    · exact .inr (.inl ⟨rfl, by simp⟩)
+    · cases hc : convert s
+      · exact .inr (.inr (.inl ⟨rfl, rfl, by simp⟩))
+      · next s2 => exact .inr (.inr (.inr ⟨rfl, s2, rfl, by simp⟩))
+  · rw [hsp]; exact .inl ⟨a, b, c, rfl⟩
+
+theorem actGet_eq (fixed : Bool) (s : State) :
+    actGet fixed s = ((getRes fixed s).1,
+      match (getRes fixed s).2 with | .val r => .results r | .err e => .exc e) := by
+  unfold actGet
+  split <;> simp [*]
+
+/-! ### how the task phase moves -/
+
+theorem execEntry_cases (cfg : Cfg) (s : State) (c : Call) (async : Bool) (h : Inv s)
+    (hen : callerEnabled s = true) :
+    (s.phase ≠ .idle ∧ execEntry cfg s c async = (s, .exc .assertion)) ∨
+    (s.phase = .idle ∧ ∃ cmd map e ucb, execEntry cfg s c async =
+        ({ s with userCb := ucb, command := cmd, mapping := map }, .exc e) ∧
+        (handleParams cfg.paramNames s.command s.mapping c).2.2 = some e) ∨
+    (s.phase = .idle ∧ (handleParams cfg.paramNames s.command s.mapping c).2.2 = none ∧
+      (execEntry cfg s c async).2 = .accepted ∧ (execEntry cfg s c async).1.phase = .ready ∧
+      (execEntry cfg s c async).1.fnCalls = s.fnCalls ∧ (execEntry cfg s c async).1.cbLog = s.cbLog ∧
+      (execEntry cfg s c async).1.cancelReq = s.cancelReq ∧
+      (execEntry cfg s c async).1.mapPending = s.mapPending) := by
+  unfold execEntry
+  split
+  · next hw =>
+    refine .inl ⟨?_, rfl⟩
+    intro hi
+    rcases h.cases with h | h | h | h | h | h | h <;> simp_all
+  · next hw =>
+    have hw : s.status = .waiting := Classical.not_not.mp hw
+    have hidle : s.phase = .idle := by
+      rcases h.cases with h | h | h | h | h | h | h <;> simp_all [callerEnabled, St.isFinal]
+    refine .inr ?_
+    simp only
+    split
+    · next cmd map e heq => exact .inl ⟨hidle, cmd, map, e, _, rfl, by simp [heq]⟩
+    · next cmd map heq =>
+      refine .inr ⟨hidle, by simp [heq], ?_⟩
+      cases async <;> simp
+
+/-- One event moves the task phase one step forward at most: idle → ready exactly when an execute call
+is accepted, ready → active at the task's entry, active → done when the task is left. -/
+theorem phase_step (fixed : Bool) (cfg : Cfg) (s : State) (e : Ev) (h : Inv s) :
+    ((step fixed cfg s e).1.phase = s.phase ∧ (step fixed cfg s e).1.fnCalls = s.fnCalls ∧
+        (step fixed cfg s e).2 ≠ .accepted ∧ (∀ r, (step fixed cfg s e).2 ≠ .finished r)) ∨
+    (s.phase = .idle ∧ (step fixed cfg s e).2 = .accepted ∧ (step fixed cfg s e).1.phase = .ready ∧
+        (step fixed cfg s e).1.fnCalls = s.fnCalls) ∨
+    (s.phase = .ready ∧ (∃ a, (step fixed cfg s e).2 = .started a) ∧ (step fixed cfg s e).1.phase = .active) ∨
+    (s.phase = .active ∧ (step fixed cfg s e).1.phase = .done ∧ ∃ r, (step fixed cfg s e).2 = .finished r) := by
+  have hexec : ∀ c a, callerEnabled s = true →
+      ((notePending s (execEntry cfg s c a)).1.phase = s.phase ∧
+        (notePending s (execEntry cfg s c a)).1.fnCalls = s.fnCalls ∧
+        (notePending s (execEntry cfg s c a)).2 ≠ .accepted ∧
+        (∀ r, (notePending s (execEntry cfg s c a)).2 ≠ .finished r)) ∨
+      (s.phase = .idle ∧ (notePending s (execEntry cfg s c a)).2 = .accepted ∧
+        (notePending s (execEntry cfg s c a)).1.phase = .ready ∧
+        (notePending s (execEntry cfg s c a)).1.fnCalls = s.fnCalls) := by
+    intro c a hen
+    obtain ⟨p, hp⟩ := notePending_fst s (execEntry cfg s c a)
+    rw [hp, notePending_snd]
+    rcases execEntry_cases cfg s c a h hen with ⟨_, he⟩ | ⟨_, cmd, map, e, ucb, he, _⟩ | ⟨hi, _, h1, h2, h3, _⟩
+    · rw [he]; exact .inl ⟨rfl, rfl, by simp, by simp⟩
+    · rw [he]; exact .inl ⟨rfl, rfl, by simp, by simp⟩
+    · exact .inr ⟨hi, h1, h2, h3⟩
+  have hfin : ∀ t : State, t.status ≠ .running → t.phase = s.phase → s.phase = .active →
+      s.phase = .active ∧ (finish fixed t).1.phase = .done ∧ ∃ r, (finish fixed t).2 = .finished r := by
+    intro t ht _ ha
+    obtain ⟨r, mp, hf⟩ := finish_frame fixed ht
+    refine ⟨ha, by rw [hf], ?_⟩
+    unfold finish; simp only; split <;> exact ⟨_, rfl⟩
+  cases e with
+  | execSync c =>
+    simp only [step]
+    split
+    · next hen =>
+      rcases hexec c false hen with h | h
+      · exact .inl h
+      · exact .inr (.inl h)
+    · exact .inl ⟨rfl, rfl, by simp, by simp⟩
+  | execAsync c =>
+    simp only [step]
+    split
+    · next hen =>
+      rcases hexec c true hen with h | h
+      · exact .inl h
+      · exact .inr (.inl h)
+    · exact .inl ⟨rfl, rfl, by simp, by simp⟩
+  | statusQuery =>
+    simp only [step]
+    split
+    · obtain ⟨p, hp⟩ := notePending_fst s (actStatus fixed s)
+      rw [hp, notePending_snd]
+      rcases actStatus_cases fixed h.noRepair with he | ⟨_, _, _, he⟩ <;> rw [he] <;>
+        exact .inl ⟨rfl, rfl, by simp, by simp⟩
+    · exact .inl ⟨rfl, rfl, by simp, by simp⟩
+  | cancel =>
+    simp only [step]
+    split <;> exact .inl ⟨rfl, rfl, by simp, by simp⟩
+  | getResults =>
+    simp only [step]
+    split
+    · obtain ⟨p, hp⟩ := notePending_fst s (actGet fixed s)
+      rw [hp, notePending_snd, actGet_eq]
+      obtain ⟨r, mp, hg⟩ := getRes_frame fixed h.noRepair
+      refine .inl ⟨by rw [hg], by rw [hg], ?_, ?_⟩ <;> (split <;> simp)
+    · exact .inl ⟨rfl, rfl, by simp, by simp⟩
+  | tStart =>
+    simp only [step]
+    split
+    · next hp => exact .inr (.inr (.inl ⟨hp, ⟨_, rfl⟩, rfl⟩))
+    · exact .inl ⟨rfl, rfl, by simp, by simp⟩
+  | tProgress p =>
+    simp only [step]
+    split
+    · unfold taskProgress
+      simp only
+      split
+      · exact .inl ⟨rfl, rfl, by simp, by simp⟩
+      · split <;> exact .inl ⟨rfl, rfl, by simp, by simp⟩
+    · exact .inl ⟨rfl, rfl, by simp, by simp⟩
+  | tReturn r =>
+    simp only [step]
+    split
+    · next hp =>
+      refine .inr (.inr (.inr ?_))
+      unfold taskReturn
+      simp only
+      split
+      · exact hfin _ (by simp [stopRun]) (by simp [stopRun]) hp
+      · exact hfin _ (by simp [stopRun]) (by simp [stopRun]) hp
+    · exact .inl ⟨rfl, rfl, by simp, by simp⟩
+  | tRaise c t =>
+    simp only [step]
+    split
+    · next hp => exact .inr (.inr (.inr (hfin _ (by simp [stopRun]) (by simp [stopRun]) hp)))
+    · exact .inl ⟨rfl, rfl, by simp, by simp⟩
+  | tPropagate =>
+    simp only [step]
+    split
+    · next hp =>
+      split
+      · exact .inr (.inr (.inr (hfin _ (by simp [stopRun]) (by simp [stopRun]) hp.1)))
+      · exact .inl ⟨rfl, rfl, by simp, by simp⟩
+    · exact .inl ⟨rfl, rfl, by simp, by simp⟩
+
+/-! ### observations on outputs -/
+
+/-- the value a caller received: from `get_results()` or as the return value of `execute_sync` -/
+def resultOf : Out → Option Ret
+  | .results r => some r
+  | .finished (some (.val r)) => some r
+  | _ => none
+
+/-- which user callback saw which progress value -/
+def seen : Out → Option (Nat × Nat)
+  | .progressed (some id) p _ => some (id, p)
+  | _ => none
+
+theorem finish_snd (fixed : Bool) (t : State) : ∃ r, (finish fixed t).2 = .finished r := by
+  unfold finish; simp only; split <;> exact ⟨_, rfl⟩
+
+/-! ### after the task has ended nothing but the one-shot conversion, the cancel flag and the
+harness-side `pending` can change -/
+
+theorem done_step (fixed : Bool) (cfg : Cfg) (s : State) (e : Ev) (h : Inv s) (hd : s.phase = .done) :
+    ∃ r mp cr p, (step fixed cfg s e).1 =
+        { s with results := r, mapPending := mp, cancelReq := cr, pending := p } ∧
+      ((r = s.results ∧ mp = s.mapPending) ∨
+        (s.mapPending = true ∧ mp = false ∧ convertRet s.mapping s.results = some r)) ∧
+      (∀ v, resultOf (step fixed cfg s e).2 = some v → v = r ∧ mp = false) := by
+  have hfin : s.status.isFinal = true := by
+    rcases h.cases with h | h | h | h | h | h | h <;> simp_all
+  have hen : callerEnabled s = true := by simp [callerEnabled, hd]
+  have same : ∀ (p : Option Exc) (o : Out), resultOf o = none →
+      ∃ r mp cr p', ({ s with pending := p }, o).1 =
+        { s with results := r, mapPending := mp, cancelReq := cr, pending := p' } ∧
+      ((r = s.results ∧ mp = s.mapPending) ∨
+        (s.mapPending = true ∧ mp = false ∧ convertRet s.mapping s.results = some r)) ∧
+      (∀ v, resultOf ({ s with pending := p }, o).2 = some v → v = r ∧ mp = false) := by
+    intro p o ho
+    exact ⟨s.results, s.mapPending, s.cancelReq, p, rfl, .inl ⟨rfl, rfl⟩, by simp [ho]⟩
+  have hexec : ∀ c a, ∃ p, notePending s (execEntry cfg s c a) = ({ s with pending := p }, .exc .assertion) := by
+    intro c a
+    rcases execEntry_cases cfg s c a h hen with ⟨_, he⟩ | ⟨hi, _⟩ | ⟨hi, _⟩
+    · rw [he]; exact notePending_eq s s _
+    · simp [hd] at hi
+    · simp [hd] at hi
+  cases e with
+  | execSync c =>
+    simp only [step, hen, if_true]
+    obtain ⟨p, hp⟩ := hexec c false
+    rw [hp]; exact same p _ rfl
+  | execAsync c =>
+    simp only [step, hen, if_true]
+    obtain ⟨p, hp⟩ := hexec c true
+    rw [hp]; exact same p _ rfl
+  | statusQuery =>
+    simp only [step, hen, if_true]
+    rcases actStatus_cases fixed h.noRepair with he | ⟨_, _, _, he⟩ <;>
+      (rw [he]; obtain ⟨p, hp⟩ := notePending_eq s s _; rw [hp]; exact same p _ rfl)
+  | cancel =>
+    simp only [step, hen, if_true]
+    exact ⟨s.results, s.mapPending, true, s.pending, rfl, .inl ⟨rfl, rfl⟩, by simp [resultOf]⟩
+  | getResults =>
+    simp only [step, hen, if_true]
+    rw [actGet_eq]
+    rcases getRes_cases fixed h.noRepair with ⟨_, hr, _, _⟩ | ⟨hr, _⟩ | ⟨_, _, he⟩ | ⟨_, s2, hc, he⟩
+    · simp [hr, St.isFinal] at hfin
+    · simp [hr] at hfin
+    · rw [he]; obtain ⟨p, hp⟩ := notePending_eq s s (.exc (if s.status.failed then .failed else .notAvailable))
+      simp only; rw [hp]; exact same p _ rfl
+    · rw [he]; obtain ⟨p, hp⟩ := notePending_eq s s2 (.results s2.results)
+      simp only; rw [hp]
+      rcases convert_cases hc with ⟨hm, rfl⟩ | ⟨hm, r, hr, rfl⟩
+      · exact ⟨s2.results, s2.mapPending, s2.cancelReq, p, rfl, .inl ⟨rfl, rfl⟩,
+          by intro v hv; simp [resultOf] at hv; exact ⟨hv.symm, hm⟩⟩
+      · exact ⟨r, false, s.cancelReq, p, rfl, .inr ⟨hm, rfl, hr⟩,
+          by intro v hv; simp [resultOf] at hv; exact ⟨hv.symm, rfl⟩⟩
+  | tStart =>
+    have hn : ¬ s.phase = .ready := by simp [hd]
+    simp only [step, if_neg hn]; exact same s.pending .disabled rfl
+  | tProgress p =>
+    have hn : ¬ s.phase = .active := by simp [hd]
+    simp only [step, if_neg hn]; exact same s.pending .disabled rfl
+  | tReturn r =>
+    have hn : ¬ s.phase = .active := by simp [hd]
+    simp only [step, if_neg hn]; exact same s.pending .disabled rfl
+  | tRaise c t =>
+    have hn : ¬ s.phase = .active := by simp [hd]
+    simp only [step, if_neg hn]; exact same s.pending .disabled rfl
+  | tPropagate =>
+    have hn : ¬ (s.phase = .active ∧ s.cbOpen = true) := by simp [hd]
+    simp only [step, if_neg hn]; exact same s.pending .disabled rfl
+
+theorem Inv.final_iff {s : State} (h : Inv s) : s.status.isFinal = true ↔ s.phase = .done := by
+  rcases h.cases with h | h | h | h | h | h | h <;> simp_all [St.isFinal]
+
+/-! ### what one event does to the callback log, the cancel flag and the pending conversion -/
+
+theorem step_frame (fixed : Bool) (cfg : Cfg) (s : State) (e : Ev) (h : Inv s) :
+    (step fixed cfg s e).1.cbLog = s.cbLog ++ (seen (step fixed cfg s e).2).toList ∧
+    ((step fixed cfg s e).1.cancelReq = true ↔ s.cancelReq = true ∨ (step fixed cfg s e).2 = .done) ∧
+    ((step fixed cfg s e).1.phase ≠ .done → (step fixed cfg s e).1.mapPending = s.mapPending) := by
+  have hexec : ∀ c a, callerEnabled s = true →
+      (notePending s (execEntry cfg s c a)).1.cbLog = s.cbLog ++ (seen (notePending s (execEntry cfg s c a)).2).toList ∧
+      ((notePending s (execEntry cfg s c a)).1.cancelReq = true ↔
+        s.cancelReq = true ∨ (notePending s (execEntry cfg s c a)).2 = .done) ∧
+      ((notePending s (execEntry cfg s c a)).1.phase ≠ .done →
+        (notePending s (execEntry cfg s c a)).1.mapPending = s.mapPending) := by
+    intro c a hen
+    rcases execEntry_cases cfg s c a h hen with ⟨_, he⟩ | ⟨_, cmd, map, e, ucb, he, _⟩ | ⟨_, _, h1, _, _, h4, h5, h6⟩
+    · rw [he]; obtain ⟨p, hp⟩ := notePending_eq s s (.exc .assertion); rw [hp]; simp [seen]
+    · rw [he]; obtain ⟨p, hp⟩ := notePending_eq s { s with userCb := ucb, command := cmd, mapping := map } (.exc e)
+      rw [hp]; simp [seen]
+    · obtain ⟨p, hp⟩ := notePending_fst s (execEntry cfg s c a)
+      rw [hp, notePending_snd, h1]
+      simp [seen, h4, h5, h6]
+  have hfin : ∀ t : State, t.status ≠ .running → t.cbLog = s.cbLog → t.cancelReq = s.cancelReq →
+      (finish fixed t).1.cbLog = s.cbLog ++ (seen (finish fixed t).2).toList ∧
+      ((finish fixed t).1.cancelReq = true ↔ s.cancelReq = true ∨ (finish fixed t).2 = .done) ∧
+      ((finish fixed t).1.phase ≠ .done → (finish fixed t).1.mapPending = s.mapPending) := by
+    intro t ht h1 h2
+    obtain ⟨r, mp, hf⟩ := finish_frame fixed ht
+    obtain ⟨o, ho⟩ := finish_snd fixed t
+    rw [hf, ho]; simp [seen, h1, h2]
+  cases e with
+  | execSync c =>
+    simp only [step]
+    split
+    · next hen => exact hexec c false hen
+    · simp [seen]
+  | execAsync c =>
+    simp only [step]
+    split
+    · next hen => exact hexec c true hen
+    · simp [seen]
+  | statusQuery =>
+    simp only [step]
+    split
+    · rcases actStatus_cases fixed h.noRepair with he | ⟨_, _, _, he⟩ <;>
+        (rw [he]; obtain ⟨p, hp⟩ := notePending_eq s s _; rw [hp]; simp [seen])
+    · simp [seen]
+  | cancel =>
+    simp only [step]
+    split <;> simp [seen]
+  | getResults =>
+    simp only [step]
+    split
+    · rw [actGet_eq]
+      rcases getRes_cases fixed h.noRepair with ⟨_, _, _, he⟩ | ⟨_, he⟩ | ⟨_, _, he⟩ | ⟨hf, s2, hc, he⟩
+      · rw [he]; obtain ⟨p, hp⟩ := notePending_eq s s (.exc .attribute); simp only; rw [hp]; simp [seen]
+      · rw [he]; obtain ⟨p, hp⟩ := notePending_eq s s (.exc .stillRunning); simp only; rw [hp]; simp [seen]
+      · rw [he]; obtain ⟨p, hp⟩ := notePending_eq s s (.exc (if s.status.failed then .failed else .notAvailable))
+        simp only; rw [hp]; simp [seen]
+      · rw [he]; obtain ⟨p, hp⟩ := notePending_eq s s2 (.results s2.results)
+        simp only; rw [hp]
+        obtain ⟨r, mp, rfl⟩ := convert_frame hc
+        have hd := h.final_iff.mp hf
+        simp [seen, hd]
+    · simp [seen]
+  | tStart =>
+    simp only [step]
+    split <;> simp [seen, taskStart]
+  | tProgress p =>
+    simp only [step]
+    split
+    · unfold taskProgress
+      simp only
+      split
+      · next hc => simp [seen, hc]
+      · split <;> simp [seen]
+    · simp [seen]
+  | tReturn r =>
+    simp only [step]
+    split
+    · unfold taskReturn
+      simp only
+      split
+      · exact hfin _ (by simp [stopRun]) (by simp [stopRun]) (by simp [stopRun])
+      · exact hfin _ (by simp [stopRun]) (by simp [stopRun]) (by simp [stopRun])
+    · simp [seen]
+  | tRaise c t =>
+    simp only [step]
+    split
+    · exact hfin _ (by simp [stopRun]) (by simp [stopRun]) (by simp [stopRun])
+    · simp [seen]
+  | tPropagate =>
+    simp only [step]
+    split
+    · split
+      · exact hfin _ (by simp [stopRun]) (by simp [stopRun]) (by simp [stopRun])
+      · simp [seen]
+    · simp [seen]
+
+/-! ### whole-history consequences -/
+
+theorem done_absorbing (fixed : Bool) (cfg : Cfg) (s : State) (e : Ev) (h : Inv s) (hd : s.phase = .done) :
+    (step fixed cfg s e).1.phase = .done := by
+  obtain ⟨r, mp, cr, p, h1, _⟩ := done_step fixed cfg s e h hd
+  rw [h1]; exact hd
+
+/-- the mapping function is still pending as long as the task has not ended -/
+def MapInv (cfg : Cfg) (s : State) : Prop := Inv s ∧ (s.phase ≠ .done → s.mapPending = cfg.hasMap)
+
+theorem mapInv_step (fixed : Bool) (cfg : Cfg) (s : State) (e : Ev) (h : MapInv cfg s) :
+    MapInv cfg (step fixed cfg s e).1 := by
+  refine ⟨inv_step fixed cfg s e h.1, fun hn => ?_⟩
+  have h3 := (step_frame fixed cfg s e h.1).2.2 hn
+  rw [h3]
+  apply h.2
+  intro hd
+  exact hn (done_absorbing fixed cfg s e h.1 hd)
+
+theorem mapInv_after (fixed : Bool) (cfg : Cfg) (w : List Ev) : MapInv cfg (after fixed cfg w) :=
+  inv_exec (step fixed cfg) (MapInv cfg) (fun s e h => mapInv_step fixed cfg s e h) _
+    ⟨inv_init cfg, fun _ => rfl⟩ w
+
+/-- the job holds the task's value `r`: untouched, or converted exactly once -/
+def Holds (cfg : Cfg) (r : Ret) (s : State) : Prop :=
+  (s.mapPending = cfg.hasMap ∧ s.results = r) ∨
+    (cfg.hasMap = true ∧ s.mapPending = false ∧ convertRet s.mapping r = some s.results)
+
+/-- the task has ended with this status and stop message -/
+def FinalSt (st : St) (m : Msg) (s : State) : Prop := s.phase = .done ∧ s.status = st ∧ s.msg = m
+
+theorem finalSt_step (fixed : Bool) (cfg : Cfg) (s : State) (e : Ev) (h : Inv s) {st : St} {m : Msg}
+    (hf : FinalSt st m s) : FinalSt st m (step fixed cfg s e).1 := by
+  obtain ⟨r, mp, cr, p, h1, _⟩ := done_step fixed cfg s e h hf.1
+  rw [h1]; exact hf
+
+theorem holds_step (fixed : Bool) (cfg : Cfg) (s : State) (e : Ev) (h : Inv s) (hd : s.phase = .done)
+    {r : Ret} (hh : Holds cfg r s) : Holds cfg r (step fixed cfg s e).1 := by
+  obtain ⟨r', mp, cr, p, h1, h2, _⟩ := done_step fixed cfg s e h hd
+  rw [h1]
+  rcases h2 with ⟨rfl, rfl⟩ | ⟨hm, rfl, hc⟩
+  · exact hh
+  · rcases hh with ⟨a, b⟩ | ⟨_, b, _⟩
+    · exact .inr ⟨by rw [← a, hm], rfl, by rw [← b]; exact hc⟩
+    · rw [hm] at b; cases b
+
+theorem final_exec (fixed : Bool) (cfg : Cfg) (w : List Ev) {s : State} (h : Inv s) {st : St} {m : Msg}
+    (hf : FinalSt st m s) : FinalSt st m (exec (step fixed cfg) s w) := by
+  have := inv_exec (step fixed cfg) (fun s => Inv s ∧ FinalSt st m s)
+    (fun s e h => ⟨inv_step fixed cfg s e h.1, finalSt_step fixed cfg s e h.1 h.2⟩) s ⟨h, hf⟩ w
+  exact this.2
+
+theorem holds_exec (fixed : Bool) (cfg : Cfg) (w : List Ev) {s : State} (h : Inv s) (hd : s.phase = .done)
+    {r : Ret} (hh : Holds cfg r s) : Holds cfg r (exec (step fixed cfg) s w) := by
+  have := inv_exec (step fixed cfg) (fun s => Inv s ∧ s.phase = .done ∧ Holds cfg r s)
+    (fun s e h => ⟨inv_step fixed cfg s e h.1, done_absorbing fixed cfg s e h.1 h.2.1,
+      holds_step fixed cfg s e h.1 h.2.1 h.2.2⟩) s ⟨h, hd, hh⟩ w
+  exact this.2.2
+
+/-- leaving the task function with a final status, value `r` and the conversion still pending -/
+theorem finish_holds (fixed : Bool) (cfg : Cfg) {t : State} {r : Ret} (hf : t.status.isFinal = true)
+    (hr : t.results = r) (hm : t.mapPending = cfg.hasMap) :
+    (finish fixed t).1.phase = .done ∧ (finish fixed t).1.status = t.status ∧
+      (finish fixed t).1.msg = t.msg ∧ Holds cfg r (finish fixed t).1 := by
+  have hn : NoRepair (finishPre t) := by
+    intro ⟨h1, _⟩
+    have : t.status = .running := h1
+    simp [this, St.isFinal] at hf
+  have hpre : Holds cfg r (finishPre t) := .inl ⟨hm, hr⟩
+  have hfp : (finishPre t).status.isFinal = true := hf
+  show (finish fixed t).1.phase = .done ∧ (finish fixed t).1.status = (finishPre t).status ∧
+      (finish fixed t).1.msg = (finishPre t).msg ∧ Holds cfg r (finish fixed t).1
+  have hfin : finish fixed t = match t.mode with
+      | .sync => ((getRes fixed (finishPre t)).1, .finished (some (getRes fixed (finishPre t)).2))
+      | _ => (finishPre t, .finished none) := rfl
+  rw [hfin]
+  split
+  · rcases getRes_cases fixed hn with ⟨_, hs, _, _⟩ | ⟨hs, _⟩ | ⟨_, _, he⟩ | ⟨_, s2, hc, he⟩
+    · rw [hs] at hfp; simp [St.isFinal] at hfp
+    · rw [hs] at hfp; cases hfp
+    · rw [he]; exact ⟨rfl, rfl, rfl, hpre⟩
+    · rw [he]
+      rcases convert_cases hc with ⟨_, rfl⟩ | ⟨hmp, r2, hr2, rfl⟩
+      · exact ⟨rfl, rfl, rfl, hpre⟩
+      · refine ⟨rfl, rfl, rfl, .inr ⟨?_, rfl, ?_⟩⟩
+        · rw [← hm]; exact hmp
+        · rw [← hr]; exact hr2
+  · exact ⟨rfl, rfl, rfl, hpre⟩
+
+theorem cancelReq_run (fixed : Bool) (cfg : Cfg) (w : List Ev) {s : State} (h : Inv s) :
+    (exec (step fixed cfg) s w).cancelReq = true ↔
+      s.cancelReq = true ∨ Out.done ∈ (run (step fixed cfg) s w).2 := by
+  induction w generalizing s with
+  | nil => simp [exec, run]
+  | cons e w ih =>
+    rw [exec_cons, run_cons, ih (inv_step fixed cfg s e h), (step_frame fixed cfg s e h).2.1]
+    simp only [List.mem_cons]
+    constructor
+    · rintro ((a | a) | a)
+      · exact .inl a
+      · exact .inr (.inl a.symm)
+      · exact .inr (.inr a)
+    · rintro (a | a | a)
+      · exact .inl (.inl a)
+      · exact .inl (.inr a.symm)
+      · exact .inr a
+
+theorem cbLog_run (fixed : Bool) (cfg : Cfg) (w : List Ev) {s : State} (h : Inv s) :
+    (exec (step fixed cfg) s w).cbLog = s.cbLog ++ (run (step fixed cfg) s w).2.filterMap seen := by
+  induction w generalizing s with
+  | nil => simp [exec, run]
+  | cons e w ih =>
+    rw [exec_cons, run_cons, ih (inv_step fixed cfg s e h), (step_frame fixed cfg s e h).1]
+    cases hs : seen (step fixed cfg s e).2 <;> simp [hs]
+
+theorem count_accepted_run (fixed : Bool) (cfg : Cfg) (w : List Ev) {s : State} (h : Inv s) :
+    List.count Out.accepted (run (step fixed cfg) s w).2 ≤ (if s.phase = .idle then 1 else 0) := by
+  induction w generalizing s with
+  | nil => simp [run]
+  | cons e w ih =>
+    rw [run_cons]
+    have ih' := ih (inv_step fixed cfg s e h)
+    simp only [List.count_cons]
+    rcases phase_step fixed cfg s e h with ⟨h1, _, h3, _⟩ | ⟨h1, h2, h3, _⟩ | ⟨h1, ⟨a, h2⟩, h3⟩ | ⟨h1, h2, r, h3⟩
+    · rw [h1] at ih'
+      have : ((step fixed cfg s e).2 == Out.accepted) = false := by simpa using h3
+      simp [this]; exact ih'
+    · rw [h3] at ih'; simp [h1, h2] at ih' ⊢; exact ih'
+    · rw [h3] at ih'; simp [h1, h2] at ih' ⊢; exact ih'
+    · rw [h2] at ih'; simp [h1, h3] at ih' ⊢; exact ih'
+
+theorem accepted_before_start (fixed : Bool) (cfg : Cfg) (w : List Ev) {s : State} (h : Inv s)
+    (hp : (exec (step fixed cfg) s w).phase ≠ .idle) :
+    s.phase ≠ .idle ∨ Out.accepted ∈ (run (step fixed cfg) s w).2 := by
+  induction w generalizing s with
+  | nil => exact .inl hp
+  | cons e w ih =>
+    rw [exec_cons] at hp
+    rw [run_cons]
+    rcases ih (inv_step fixed cfg s e h) hp with h1 | h1
+    · rcases phase_step fixed cfg s e h with ⟨h2, _⟩ | ⟨_, h2, _⟩ | ⟨h2, _⟩ | ⟨h2, _⟩
+      · exact .inl (h2 ▸ h1)
+      · exact .inr (by simp [h2])
+      · exact .inl (by simp [h2])
+      · exact .inl (by simp [h2])
+    · exact .inr (by simp [h1])
+
+/-! ### results: refused while running, settled by the first retrieval -/
+
+/-- the one-shot conversion is over and the job holds `v` -/
+def Settled (v : Ret) (s : State) : Prop := s.phase = .done ∧ s.mapPending = false ∧ s.results = v
+
+theorem settled_step (fixed : Bool) (cfg : Cfg) (s : State) (e : Ev) (h : Inv s) {v : Ret}
+    (hs : Settled v s) :
+    Settled v (step fixed cfg s e).1 ∧ ∀ v', resultOf (step fixed cfg s e).2 = some v' → v' = v := by
+  obtain ⟨r, mp, cr, p, h1, h2, h3⟩ := done_step fixed cfg s e h hs.1
+  have hr : r = s.results ∧ mp = s.mapPending := by
+    rcases h2 with h2 | ⟨hm, _⟩
+    · exact h2
+    · rw [hs.2.1] at hm; cases hm
+  refine ⟨?_, fun v' hv => ?_⟩
+  · rw [h1]; exact ⟨hs.1, by rw [hr.2]; exact hs.2.1, by rw [hr.1]; exact hs.2.2⟩
+  · rw [(h3 v' hv).1, hr.1]; exact hs.2.2
+
+theorem finish_result (fixed : Bool) {t : State} (ht : t.status ≠ .running) {v : Ret}
+    (hv : resultOf (finish fixed t).2 = some v) : Settled v (finish fixed t).1 := by
+  have hn : NoRepair (finishPre t) := fun h => ht h.1
+  have hfin : finish fixed t = match t.mode with
+      | .sync => ((getRes fixed (finishPre t)).1, .finished (some (getRes fixed (finishPre t)).2))
+      | _ => (finishPre t, .finished none) := rfl
+  rw [hfin] at hv ⊢
+  split at hv
+  · rcases getRes_cases fixed hn with ⟨_, _, _, he⟩ | ⟨_, he⟩ | ⟨_, _, he⟩ | ⟨_, s2, hc, he⟩
+    · rw [he] at hv; simp [resultOf] at hv
+    · rw [he] at hv; simp [resultOf] at hv
+    · rw [he] at hv; simp [resultOf] at hv
+    · rw [he] at hv ⊢
+      simp [resultOf] at hv
+      rcases convert_cases hc with ⟨hm, rfl⟩ | ⟨hm, r, hr, rfl⟩
+      · exact ⟨rfl, hm, hv⟩
+      · exact ⟨rfl, rfl, hv⟩
+  · simp [resultOf] at hv
+
+/-- whoever receives a value (from `get_results()` or from `execute_sync`) leaves the job settled on it;
+in particular no value is handed out before the task has ended -/
+theorem result_settles (fixed : Bool) (cfg : Cfg) (s : State) (e : Ev) (h : Inv s) {v : Ret}
+    (hv : resultOf (step fixed cfg s e).2 = some v) :
+    Settled v (step fixed cfg s e).1 ∧ (s.phase = .done ∨ ∃ r, (step fixed cfg s e).2 = .finished r) := by
+  have hexec : ∀ c a, resultOf (notePending s (execEntry cfg s c a)).2 = some v → callerEnabled s = true → False := by
+    intro c a hv hen
+    rw [notePending_snd] at hv
+    rcases execEntry_cases cfg s c a h hen with ⟨_, he⟩ | ⟨_, cmd, map, e, ucb, he, _⟩ | ⟨_, _, h1, _⟩
+    · rw [he] at hv; simp [resultOf] at hv
+    · rw [he] at hv; simp [resultOf] at hv
+    · rw [h1] at hv; simp [resultOf] at hv
+  cases e with
+  | execSync c =>
+    simp only [step] at hv
+    split at hv
+    · next hen => exact (hexec c false hv hen).elim
+    · simp [resultOf] at hv
+  | execAsync c =>
+    simp only [step] at hv
+    split at hv
+    · next hen => exact (hexec c true hv hen).elim
+    · simp [resultOf] at hv
+  | statusQuery =>
+    simp only [step] at hv
+    split at hv
+    · rw [notePending_snd] at hv
+      rcases actStatus_cases fixed h.noRepair with he | ⟨_, _, _, he⟩ <;>
+        (rw [he] at hv; simp [resultOf] at hv)
+    · simp [resultOf] at hv
+  | cancel =>
+    simp only [step] at hv
+    split at hv <;> simp [resultOf] at hv
+  | getResults =>
+    simp only [step] at hv ⊢
+    split at hv
+    · next hen =>
+      rw [if_pos hen]
+      rw [notePending_snd, actGet_eq] at hv
+      rw [actGet_eq]
+      rcases getRes_cases fixed h.noRepair with ⟨_, _, _, he⟩ | ⟨_, he⟩ | ⟨_, _, he⟩ | ⟨hf, s2, hc, he⟩
+      · rw [he] at hv; simp [resultOf] at hv
+      · rw [he] at hv; simp [resultOf] at hv
+      · rw [he] at hv; simp [resultOf] at hv
+      · rw [he] at hv ⊢
+        simp [resultOf] at hv
+        obtain ⟨p, hp⟩ := notePending_eq s s2 (.results s2.results)
+        simp only; rw [hp]
+        have hd := h.final_iff.mp hf
+        refine ⟨?_, .inl hd⟩
+        rcases convert_cases hc with ⟨hm, rfl⟩ | ⟨hm, r, hr, rfl⟩
+        · exact ⟨hd, hm, hv⟩
+        · exact ⟨hd, rfl, hv⟩
+    · simp [resultOf] at hv
+  | tStart =>
+    simp only [step] at hv
+    split at hv <;> simp [resultOf, taskStart] at hv
+  | tProgress p =>
+    simp only [step] at hv
+    split at hv
+    · unfold taskProgress at hv
+      simp only at hv
+      split at hv
+      · simp [resultOf] at hv
+      · split at hv <;> simp [resultOf] at hv
+    · simp [resultOf] at hv
+  | tReturn r =>
+    simp only [step] at hv ⊢
+    split at hv
+    · next hp =>
+      rw [if_pos hp]
+      unfold taskReturn at hv ⊢
+      simp only at hv ⊢
+      split at hv
+      · next hc => rw [if_pos hc]; exact ⟨finish_result fixed (by simp [stopRun]) hv, .inr (finish_snd fixed _)⟩
+      · next hc => rw [if_neg hc]; exact ⟨finish_result fixed (by simp [stopRun]) hv, .inr (finish_snd fixed _)⟩
+    · simp [resultOf] at hv
+  | tRaise c t =>
+    simp only [step] at hv ⊢
+    split at hv
+    · next hp =>
+      rw [if_pos hp]
+      exact ⟨finish_result fixed (by simp [stopRun]) hv, .inr (finish_snd fixed _)⟩
+    · simp [resultOf] at hv
+  | tPropagate =>
+    simp only [step] at hv ⊢
+    split at hv
+    · next hp =>
+      rw [if_pos hp]
+      split at hv
+      · next e he =>
+        try simp only [he]
+        exact ⟨finish_result fixed (by simp [stopRun]) hv, .inr (finish_snd fixed _)⟩
+      · simp [resultOf] at hv
+    · simp [resultOf] at hv
+
+theorem settled_run (fixed : Bool) (cfg : Cfg) (w : List Ev) {s : State} (h : Inv s) {v : Ret}
+    (hs : Settled v s) : ∀ o ∈ (run (step fixed cfg) s w).2, ∀ v', resultOf o = some v' → v' = v :=
+  outputs_run (step fixed cfg) (fun s => Inv s ∧ Settled v s) (fun o => ∀ v', resultOf o = some v' → v' = v)
+    (fun s e hh => ⟨⟨inv_step fixed cfg s e hh.1, (settled_step fixed cfg s e hh.1 hh.2).1⟩,
+      (settled_step fixed cfg s e hh.1 hh.2).2⟩) s ⟨h, hs⟩ w
+
+theorem results_pairwise (fixed : Bool) (cfg : Cfg) (w : List Ev) {s : State} (h : Inv s) :
+    (run (step fixed cfg) s w).2.Pairwise
+      (fun a b => ∀ va vb, resultOf a = some va → resultOf b = some vb → va = vb) := by
+  induction w generalizing s with
+  | nil => simp [run]
+  | cons e w ih =>
+    rw [run_cons]
+    refine List.Pairwise.cons ?_ (ih (inv_step fixed cfg s e h))
+    intro b hb va vb ha hvb
+    have hs := (result_settles fixed cfg s e h ha).1
+    exact (settled_run fixed cfg w (inv_step fixed cfg s e h) hs b hb vb hvb).symm
+
+/-! ### the harness-side memory `pending` influences nothing but `tPropagate` -/
+
+/-- forget which exception the last caller action inside the callback raised -/
+def clr (s : State) : State := { s with pending := none }
+
+theorem notePending_clr (s0 t : State) (o : Out) : clr (notePending s0 (t, o)).1 = clr t := by
+  obtain ⟨p, hp⟩ := notePending_eq s0 t o
+  rw [hp]; rfl
+
+theorem notePending_cbOpen (s0 s0' : State) (r : State × Out) (h : s0.cbOpen = s0'.cbOpen) :
+    notePending s0 r = notePending s0' r := by
+  unfold notePending; rw [h]
+
+theorem execEntry_clr (cfg : Cfg) (s : State) (c : Call) (a : Bool) :
+    execEntry cfg (clr s) c a = (clr (execEntry cfg s c a).1, (execEntry cfg s c a).2) := by
+  unfold execEntry
+  have hst : (clr s).status = s.status := rfl
+  rw [hst]
+  by_cases hw : s.status ≠ .waiting
+  · rw [if_pos hw, if_pos hw]
+  · rw [if_neg hw, if_neg hw]
+    simp only [clr]
+    generalize handleParams cfg.paramNames s.command s.mapping c = hp
+    obtain ⟨cmd, map, e⟩ := hp
+    cases e <;> cases a <;> rfl
+
+theorem statusProp_clr (fixed : Bool) (s : State) :
+    statusProp fixed (clr s) = (statusProp fixed s).map clr := by
+  obtain ⟨st, msg, pr, wk, cr, res, mp, cmd, map, ucb, ph, md, cbo, pend, fc, log⟩ := s
+  cases st <;> cases wk <;> cases fixed <;> rfl
+
+theorem convert_clr (s : State) : convert (clr s) = (convert s).map clr := by
+  obtain ⟨st, msg, pr, wk, cr, res, mp, cmd, map, ucb, ph, md, cbo, pend, fc, log⟩ := s
+  cases mp
+  · rfl
+  · simp only [convert, clr, if_true]
+    cases convertRet map res <;> rfl
+
+theorem getRes_clr (fixed : Bool) (s : State) :
+    getRes fixed (clr s) = (clr (getRes fixed s).1, (getRes fixed s).2) := by
+  unfold getRes
+  rw [statusProp_clr]
+  cases statusProp fixed s with
+  | error e => rfl
+  | ok s1 =>
+    simp only [Except.map]
+    have : (clr s1).status = s1.status := rfl
+    rw [this]
+    split
+    · rw [convert_clr]
+      cases convert s1 <;> rfl
+    · rfl
+
+theorem finish_clr (fixed : Bool) (t t' : State) (h : clr t = clr t') : finish fixed t = finish fixed t' := by
+  have hp : finishPre t = finishPre t' := by
+    have : finishPre t = finishPre (clr t) := rfl
+    rw [this, h]; rfl
+  have hm : t.mode = t'.mode := by
+    have : (clr t).mode = (clr t').mode := by rw [h]
+    exact this
+  have hfin : ∀ t : State, finish fixed t = match t.mode with
+      | .sync => ((getRes fixed (finishPre t)).1, .finished (some (getRes fixed (finishPre t)).2))
+      | _ => (finishPre t, .finished none) := fun _ => rfl
+  rw [hfin t, hfin t', hp, hm]
+
+/-- every event but `tPropagate` behaves the same whatever `pending` holds -/
+theorem step_clr (fixed : Bool) (cfg : Cfg) (s : State) (e : Ev) (he : e ≠ .tPropagate) :
+    clr (step fixed cfg (clr s) e).1 = clr (step fixed cfg s e).1 ∧
+      (step fixed cfg (clr s) e).2 = (step fixed cfg s e).2 := by
+  have hen : callerEnabled (clr s) = callerEnabled s := rfl
+  have hnp : ∀ r : State × Out, clr (notePending (clr s) (clr r.1, r.2)).1 = clr (notePending s r).1 ∧
+      (notePending (clr s) (clr r.1, r.2)).2 = (notePending s r).2 := by
+    intro r
+    rw [notePending_cbOpen (clr s) s _ rfl]
+    obtain ⟨t, o⟩ := r
+    rw [notePending_clr, notePending_clr, notePending_snd, notePending_snd]
+    exact ⟨rfl, rfl⟩
+  cases e with
+  | execSync c =>
+    simp only [step, hen]
+    split
+    · rw [execEntry_clr]; exact hnp _
+    · exact ⟨rfl, rfl⟩
+  | execAsync c =>
+    simp only [step, hen]
+    split
+    · rw [execEntry_clr]; exact hnp _
+    · exact ⟨rfl, rfl⟩
+  | statusQuery =>
+    simp only [step, hen]
+    split
+    · have : actStatus fixed (clr s) = (clr (actStatus fixed s).1, (actStatus fixed s).2) := by
+        unfold actStatus
+        rw [statusProp_clr]
+        cases statusProp fixed s <;> rfl
+      rw [this]; exact hnp _
+    · exact ⟨rfl, rfl⟩
+  | cancel =>
+    simp only [step, hen]
+    split <;> exact ⟨rfl, rfl⟩
+  | getResults =>
+    simp only [step, hen]
+    split
+    · have : actGet fixed (clr s) = (clr (actGet fixed s).1, (actGet fixed s).2) := by
+        rw [actGet_eq, actGet_eq, getRes_clr]
+      rw [this]; exact hnp _
+    · exact ⟨rfl, rfl⟩
+  | tStart =>
+    simp only [step]
+    have : (clr s).phase = s.phase := rfl
+    rw [this]
+    split <;> exact ⟨rfl, rfl⟩
+  | tProgress p =>
+    simp only [step]
+    have : (clr s).phase = s.phase := rfl
+    rw [this]
+    split
+    · have : taskProgress (clr s) p = taskProgress s p := rfl
+      rw [this]; exact ⟨rfl, rfl⟩
+    · exact ⟨rfl, rfl⟩
+  | tReturn r =>
+    simp only [step]
+    have : (clr s).phase = s.phase := rfl
+    rw [this]
+    split
+    · have : taskReturn fixed (clr s) r = taskReturn fixed s r := by
+        unfold taskReturn
+        simp only
+        have hc : (clr s).cancelReq = s.cancelReq := rfl
+        rw [hc]
+        split <;> exact finish_clr fixed _ _ rfl
+      rw [this]; exact ⟨rfl, rfl⟩
+    · exact ⟨rfl, rfl⟩
+  | tRaise c t =>
+    simp only [step]
+    have : (clr s).phase = s.phase := rfl
+    rw [this]
+    split
+    · have : taskRaise fixed (clr s) (.task c t) = taskRaise fixed s (.task c t) :=
+        finish_clr fixed _ _ rfl
+      rw [this]; exact ⟨rfl, rfl⟩
+    · exact ⟨rfl, rfl⟩
+  | tPropagate => exact absurd rfl he
+
+theorem step_clr_rel (fixed : Bool) (cfg : Cfg) (s s' : State) (e : Ev) (he : e ≠ .tPropagate)
+    (h : clr s = clr s') :
+    clr (step fixed cfg s e).1 = clr (step fixed cfg s' e).1 ∧
+      (step fixed cfg s e).2 = (step fixed cfg s' e).2 := by
+  obtain ⟨a1, a2⟩ := step_clr fixed cfg s e he
+  obtain ⟨b1, b2⟩ := step_clr fixed cfg s' e he
+  rw [h] at a1 a2
+  exact ⟨a1.symm.trans b1, a2.symm.trans b2⟩
+
+theorem run_clr_rel (fixed : Bool) (cfg : Cfg) (w : List Ev) (hw : Ev.tPropagate ∉ w) (s s' : State)
+    (h : clr s = clr s') :
+    clr (exec (step fixed cfg) s w) = clr (exec (step fixed cfg) s' w) ∧
+      (run (step fixed cfg) s w).2 = (run (step fixed cfg) s' w).2 := by
+  induction w generalizing s s' with
+  | nil => exact ⟨h, rfl⟩
+  | cons e w ih =>
+    have he : e ≠ .tPropagate := fun h => hw (by simp [h])
+    obtain ⟨h1, h2⟩ := step_clr_rel fixed cfg s s' e he h
+    obtain ⟨h3, h4⟩ := ih (fun h => hw (by simp [h])) _ _ h1
+    rw [exec_cons, exec_cons, run_cons, run_cons]
+    exact ⟨h3, by rw [h2, h4]⟩
+
+/-- the actions that only look at the job -/
+def readOnly : Ev → Bool
+  | .statusQuery | .getResults | .execSync _ | .execAsync _ => true
+  | _ => false
+
+/-- while the task is in flight a read-only action changes nothing in the job (repaired code) -/
+theorem readOnly_inflight (cfg : Cfg) (s : State) (e : Ev) (h : Inv s) (hr : readOnly e = true)
+    (hp : s.phase = .ready ∨ s.phase = .active) : clr (step true cfg s e).1 = clr s := by
+  have hnf : s.status.isFinal = false := by
+    cases hf : s.status.isFinal
+    · rfl
+    · have := h.final_iff.mp hf; rcases hp with hp | hp <;> simp [hp] at this
+  have hni : s.phase ≠ .idle := by rcases hp with hp | hp <;> simp [hp]
+  have hexec : ∀ c a, callerEnabled s = true → clr (notePending s (execEntry cfg s c a)).1 = clr s := by
+    intro c a hen
+    rcases execEntry_cases cfg s c a h hen with ⟨_, he⟩ | ⟨hi, _⟩ | ⟨hi, _⟩
+    · rw [he]; exact notePending_clr s s _
+    · exact absurd hi hni
+    · exact absurd hi hni
+  cases e with
+  | execSync c =>
+    simp only [step]
+    split
+    · next hen => exact hexec c false hen
+    · rfl
+  | execAsync c =>
+    simp only [step]
+    split
+    · next hen => exact hexec c true hen
+    · rfl
+  | statusQuery =>
+    simp only [step]
+    split
+    · rcases actStatus_cases true h.noRepair with he | ⟨hf, _⟩
+      · rw [he]; exact notePending_clr s s _
+      · cases hf
+    · rfl
+  | getResults =>
+    simp only [step]
+    split
+    · rw [actGet_eq]
+      rcases getRes_cases true h.noRepair with ⟨hf, _⟩ | ⟨_, he⟩ | ⟨hf, _⟩ | ⟨hf, _⟩
+      · cases hf
+      · rw [he]; exact notePending_clr s s _
+      · rw [hnf] at hf; cases hf
+      · rw [hnf] at hf; cases hf
+    · rfl
+  | cancel => cases hr
+  | tStart => cases hr
+  | tProgress p => cases hr
+  | tReturn r => cases hr
+  | tRaise c t => cases hr
+  | tPropagate => cases hr
+
+/-! ### `_handle_params`: a keyword nobody asked for is never consumed -/
+
+theorem mem_keys_derase {kw : Dict} {k k' : Key} (h : k ∈ keys kw) (hne : k ≠ k') :
+    k ∈ keys (derase kw k') := by
+  simp only [keys, derase, List.mem_map, List.mem_filter] at h ⊢
+  obtain ⟨e, he, rfl⟩ := h
+  exact ⟨e, ⟨he, by simpa using hne⟩, rfl⟩
+
+theorem fill_keeps (d kw : Dict) (k : Key) (hk : k ∈ keys kw) (hd : k ∉ keys d) :
+    k ∈ keys (fill d kw).2 := by
+  induction d generalizing kw with
+  | nil => simpa [fill] using hk
+  | cons x r ih =>
+    obtain ⟨k', v⟩ := x
+    have hne : k ≠ k' := by intro h; apply hd; simp [keys, h]
+    have hr : k ∉ keys r := by intro h; apply hd; simp only [keys, List.map_cons, List.mem_cons]; exact .inr h
+    unfold fill
+    split
+    · exact ih _ (mem_keys_derase hk hne) hr
+    · exact ih _ hk hr
+
+theorem keys_dset {d : Dict} {k x : Key} {v : PyVal} (h : x ∈ keys (dset d k v)) : x = k ∨ x ∈ keys d := by
+  induction d with
+  | nil => simp [dset, keys] at h; exact .inl h
+  | cons e r ih =>
+    obtain ⟨k', v'⟩ := e
+    unfold dset at h
+    split at h
+    · simp only [keys, List.map_cons, List.mem_cons] at h ⊢
+      rcases h with h | h
+      · exact .inr (.inl h)
+      · exact .inr (.inr h)
+    · simp only [keys, List.map_cons, List.mem_cons] at h ⊢
+      rcases h with h | h
+      · exact .inr (.inl h)
+      · rcases ih h with h | h
+        · exact .inl h
+        · exact .inr (.inr h)
+
+theorem keys_posArgs (kw : Dict) (names : List Key) (args : List PyVal) (cmd : Dict) {x : Key}
+    (h : x ∈ keys (posArgs kw names args cmd).1) : x ∈ keys cmd ∨ x ∈ names := by
+  induction names generalizing args cmd with
+  | nil => cases args <;> (simp [posArgs] at h; exact .inl h)
+  | cons n ns ih =>
+    cases args with
+    | nil => simp [posArgs] at h; exact .inl h
+    | cons a as =>
+      unfold posArgs at h
+      split at h
+      · exact .inl h
+      · rcases ih as _ h with h | h
+        · rcases keys_dset h with h | h
+          · exact .inr (by simp [h])
+          · exact .inl h
+        · exact .inr (by simp [h])
+
+theorem keys_popExtra (names : List Key) (map : Dict) (args : List PyVal) {x : Key}
+    (h : x ∈ keys (popExtra names map args).1) : x ∈ keys map ∨ x = maxSamples := by
+  unfold popExtra at h
+  split at h
+  · rcases keys_dset h with h | h
+    · exact .inr h
+    · exact .inl h
+  · exact .inl h
+
+theorem handleParams_eq (names : List Key) (cmd map : Dict) (c : Call) :
+    handleParams names cmd map c =
+      match (posArgs c.kwargs names (popExtra names map c.args).2 cmd).2 with
+      | some e => ((posArgs c.kwargs names (popExtra names map c.args).2 cmd).1, (popExtra names map c.args).1, some e)
+      | none =>
+        ((fill (posArgs c.kwargs names (popExtra names map c.args).2 cmd).1 c.kwargs).1,
+         (fill (popExtra names map c.args).1
+            (fill (posArgs c.kwargs names (popExtra names map c.args).2 cmd).1 c.kwargs).2).1,
+         if (fill (popExtra names map c.args).1
+            (fill (posArgs c.kwargs names (popExtra names map c.args).2 cmd).1 c.kwargs).2).2.isEmpty && !c.cbKw
+          then none else some .unused) := by
+  unfold handleParams
+  rcases popExtra names map c.args with ⟨m1, a1⟩
+  simp only
+  rcases posArgs c.kwargs names a1 cmd with ⟨c1, _ | e⟩ <;> rfl
+
+/-- `final_truthful` at the level of one reachable state -/
+theorem final_truthful_state (fixed : Bool) (cfg : Cfg) (s : State) (hinv : Inv s)
+    (hmap : s.mapPending = cfg.hasMap) (h : s.phase = .active) (w2 : List Ev) :
+    (∀ r, (exec (step fixed cfg) (step fixed cfg s (.tReturn r)).1 w2).phase = .done ∧
+          (exec (step fixed cfg) (step fixed cfg s (.tReturn r)).1 w2).status =
+            (if s.cancelReq then .canceled else .success) ∧
+          (exec (step fixed cfg) (step fixed cfg s (.tReturn r)).1 w2).msg =
+            (if s.cancelReq then .canceled else .none) ∧
+          Holds cfg r (exec (step fixed cfg) (step fixed cfg s (.tReturn r)).1 w2)) ∧
+    (∀ c m, (exec (step fixed cfg) (step fixed cfg s (.tRaise c m)).1 w2).phase = .done ∧
+          (exec (step fixed cfg) (step fixed cfg s (.tRaise c m)).1 w2).status = .error ∧
+          (exec (step fixed cfg) (step fixed cfg s (.tRaise c m)).1 w2).msg = .task c m) := by
+  constructor
+  · intro r
+    have hinv' := inv_step fixed cfg s (.tReturn r) hinv
+    have hstep : (step fixed cfg s (.tReturn r)).1 =
+        (finish fixed (if s.cancelReq then stopRun { s with results := r } .canceled .canceled
+                        else stopRun { s with results := r } .success .none)).1 := by
+      simp only [step, if_pos h, taskReturn]
+    generalize step fixed cfg s (.tReturn r) = t at hinv' hstep
+    obtain ⟨t1, o⟩ := t
+    simp only at hstep hinv'
+    subst hstep
+    by_cases hc : s.cancelReq = true
+    · simp only [if_pos hc] at hinv' ⊢
+      obtain ⟨a, b, c, d⟩ := finish_holds fixed cfg (t := stopRun { s with results := r } .canceled .canceled)
+        (r := r) (by simp [stopRun, St.isFinal]) (by simp [stopRun]) (by simpa [stopRun] using hmap)
+      have hf := final_exec fixed cfg w2 hinv' (st := .canceled) (m := .canceled) ⟨a, by rw [b]; rfl, by rw [c]; rfl⟩
+      exact ⟨hf.1, hf.2.1, hf.2.2, holds_exec fixed cfg w2 hinv' a d⟩
+    · simp only [if_neg hc] at hinv' ⊢
+      obtain ⟨a, b, c, d⟩ := finish_holds fixed cfg (t := stopRun { s with results := r } .success .none)
+        (r := r) (by simp [stopRun, St.isFinal]) (by simp [stopRun]) (by simpa [stopRun] using hmap)
+      have hf := final_exec fixed cfg w2 hinv' (st := .success) (m := .none) ⟨a, by rw [b]; rfl, by rw [c]; rfl⟩
+      exact ⟨hf.1, hf.2.1, hf.2.2, holds_exec fixed cfg w2 hinv' a d⟩
+  · intro c m
+    have hinv' := inv_step fixed cfg s (.tRaise c m) hinv
+    have hstep : (step fixed cfg s (.tRaise c m)).1 = (finish fixed (stopRun s .error (.task c m))).1 := by
+      simp only [step, if_pos h, taskRaise]
+    generalize step fixed cfg s (.tRaise c m) = t at hinv' hstep
+    obtain ⟨t1, o⟩ := t
+    simp only at hstep hinv'
+    subst hstep
+    obtain ⟨a, b, c', _⟩ := finish_holds fixed cfg (t := stopRun s .error (.task c m))
+      (r := s.results) (by simp [stopRun, St.isFinal]) (by simp [stopRun]) (by simpa [stopRun] using hmap)
+    exact final_exec fixed cfg w2 hinv' (st := .error) (m := .task c m) ⟨a, by rw [b]; rfl, by rw [c']; rfl⟩
 
 end PM.C18
